@@ -72,7 +72,8 @@ type case = { db : (n list * domstate) list option; dom : n list; lay : (n list 
 
 let parse_case fs =
   match fs with
-  | ["c1"; cdb; dom; lay; bnc; loc; tail] ->
+  | [("c1" | "c2") as op; cdb; dom; lay; bnc; loc; tail] ->
+      if op = "c2" && tail <> "-" then raise Bad;
       let nonul s = not (List.mem 0 (ints s)) in
       if not (nonul dom && nonul loc && nonul tail) then raise Bad;
       let lay = parse_layout lay in
@@ -85,9 +86,35 @@ let show_probe = function
   | PDir n -> " d:" ^ hex_of_bytes n
   | PFile n -> " f:" ^ hex_of_bytes n
 
+(* c2: the addresses for which the model of addrparse() is claimed: a local part of characters that need no
+   quoting, a domain accepted by domainvalid() *)
+let simple_local l =
+  l <> [] && List.for_all (fun c ->
+    (c >= 97 && c <= 122) || (c >= 65 && c <= 90) || (c >= 48 && c <= 57) || c = 46 || c = 33 || (c >= 35 && c <= 39)
+    || c = 42 || c = 43 || c = 45 || c = 47 || c = 61 || c = 63 || (c >= 94 && c <= 96) || (c >= 123 && c <= 126)) l
+let simple_domain d =
+  let alnum c = (c >= 97 && c <= 122) || (c >= 65 && c <= 90) || (c >= 48 && c <= 57) in
+  let alpha c = (c >= 97 && c <= 122) || (c >= 65 && c <= 90) in
+  let s = String.concat "" (List.map (fun c -> String.make 1 (Char.chr c)) d) in
+  let labels = String.split_on_char '.' s in
+  d <> [] && List.length d <= 255 && List.for_all (fun c -> alnum c || c = 45 || c = 46) d
+  && List.length labels >= 2 && List.for_all (fun l -> String.length l >= 1 && String.length l <= 63) labels
+  && (let last = List.nth labels (List.length labels - 1) in String.length last >= 2 && alpha (Char.code last.[String.length last - 1]))
+
+let conf_word o r_ok = if r_ok then (if int_of_n (conf_of o) = 1 then "user" else "none") else "-"
+
+let model_rcpt c =
+  if not (simple_local (List.map int_of_n c.local) && simple_domain (List.map int_of_n c.dom)) then "OUTSIDE" else
+  let (r, o) = addrparse_rcpt c.db (fs_of_layout c.lay) (vpopbounce_of c.vbfile) c.local c.dom in
+  let u = int_of_z o.rc in
+  let (rc, reply) = (match r with RAccept -> (0, "-") | RNoUser t -> (-1, hex_of_bytes t) | RError e -> (int_of_z e, "-")) in
+  string_of_int rc ^ " " ^ reply ^ " " ^ conf_word o (rc = 0 && u > 0 && u <> 5)
+  ^ String.concat "" (List.map (function PDir n -> " d:" ^ hex_of_bytes n | PFile n -> " f:" ^ hex_of_bytes n) o.probes)
+
 let model fs =
   match (try Some (parse_case fs) with Bad | Failure _ -> None) with
   | None -> "BADCASE"
+  | Some c when List.hd fs = "c2" -> model_rcpt c
   | Some c ->
       let o = user_exists c.db (fs_of_layout c.lay) (vpopbounce_of c.vbfile) c.dom c.local in
       let r = int_of_z o.rc in
@@ -102,9 +129,22 @@ let parse_probe s =
   | 'f' -> PFile (bytes_of_hex h)
   | _ -> raise Bad
 
+let conf_code = function "none" | "-" -> 0 | "user" -> 1 | "domain" -> 2 | "outside" -> 3 | _ -> 9
+
+let spec_rcpt c obs =
+  if not (simple_local (List.map int_of_n c.local) && simple_domain (List.map int_of_n c.dom)) then "pre" else
+  match obs with
+  | rc :: reply :: conf :: ps ->
+      (match int_of_string_opt rc, (try Some (List.map parse_probe ps, bytes_of_hex reply) with Bad | Failure _ -> None) with
+       | Some r, Some (pl, rep) ->
+           if spec_ok_C13_rcpt c.db c.lay c.vbfile c.dom c.local (z_of_int r) rep (n_of_int (conf_code conf)) pl then "ok" else "bad"
+       | _ -> "bad")
+  | _ -> "bad"
+
 let spec fs obs =
   match (try Some (parse_case fs) with Bad | Failure _ -> None) with
   | None -> "pre"
+  | Some c when List.hd fs = "c2" -> spec_rcpt c obs
   | Some c ->
       match obs with
       | rc :: conf :: ps ->
